@@ -8,6 +8,8 @@ package harness
 // the implementation did.  Layout: see coq/model/Dispatch.v (dispatch_c18).
 
 import (
+	"sync"
+	"bytes"
 	"context"
 	"encoding/binary"
 	"fmt"
@@ -708,9 +710,41 @@ func dhcpPayload(pkt []byte) []byte {
 	return pkt[28:]
 }
 
+// optsEqual: two option lists carry the same codes and payloads.
+func optsEqual(a, b []dhcpmsg.DHCPOpt) bool {
+	if len(a) != len(b) {
+		return false
+	}
+	for i := range a {
+		if a[i].Option != b[i].Option || !bytes.Equal(a[i].Data, b[i].Data) {
+			return false
+		}
+	}
+	return true
+}
+
+var c07vl = &violationLog{}
+
 func emitC07(c *caseWriter, cc *cfgCase, kind string, r *rand.Rand) {
 	all := cc.probes
-	for _, p := range all {
+	// one server asked about all the clients, the answers kept: what a client is told must not depend on who else was asked
+	// before, after or at the same time (compared below with a fresh server asked about that client only)
+	shared := cc.construct()
+	var conc [][]dhcpmsg.DHCPOpt
+	if shared.accepted && !shared.panicked {
+		conc = make([][]dhcpmsg.DHCPOpt, len(all)*8)
+		var wg sync.WaitGroup
+		for i := range conc {
+			wg.Add(1)
+			go func(i int) {
+				defer wg.Done()
+				defer func() { recover() }()
+				conc[i] = shared.srv.VerifDhcpOptions(net.HardwareAddr(all[i%len(all)]))
+			}(i)
+		}
+		wg.Wait()
+	}
+	for pi, p := range all {
 		cc.probes = [][]byte{p}
 		abs := cc.abstract()
 		o := cc.construct()
@@ -723,6 +757,15 @@ func emitC07(c *caseWriter, cc *cfgCase, kind string, r *rand.Rand) {
 			return // the same for every probe
 		default:
 			os := o.opts[0]
+			atomic.AddInt64(&c07vl.n, 1)
+			if shared.accepted && pi < len(shared.opts) && !optsEqual(shared.opts[pi], os) {
+				c07vl.add("options-depend-on-other-clients", "%s: options for %x from a server asked about %d clients in turn differ from those of a fresh server: %v vs %v", kind, p, len(all), shared.opts[pi], os)
+			}
+			for i := pi; i < len(conc); i += len(all) {
+				if conc[i] != nil && !optsEqual(conc[i], os) {
+					c07vl.add("options-depend-on-concurrent-calls", "%s: options for %x computed while other clients were being served differ: %v vs %v", kind, p, conc[i], os)
+				}
+			}
 			self := o.srv.VerifSelfIP()
 			xid, flags, your := r.Uint32(), uint16(r.Intn(2))<<15, ip4(r.Uint32())
 			var offer, ack []byte
@@ -757,4 +800,6 @@ func TestC07(t *testing.T) {
 		cc, kind := genCfgCase(r, mode)
 		emitC07(c, cc, kind, r)
 	}
+	c07vl.write(t, "c07shared", map[string]interface{}{"distinct_nontrivial": int(atomic.LoadInt64(&c07vl.n)), "histogram": map[string]int{"probe:shared-vs-fresh": int(atomic.LoadInt64(&c07vl.n))},
+		"samples": []string{"option list of each probe client from one server asked about all clients in turn and concurrently (8 goroutines per client), against a fresh server asked about that client only"}})
 }
